@@ -49,6 +49,8 @@ func TestPartitionRandom(t *testing.T) {
 	w := newNdWriter(t, filepath.Join(outDir(t), "partition_trace.ndjson"))
 	defer w.close()
 	keys := []string{"a", "b", "c", "z", "A", "B", "Z"}
+	// requests also come without a key, or with a key of another type than string
+	reqKeys := append(append([]string{}, keys...), "<none>", "<int>")
 	names := []string{"a", "b", "c"}
 	for tr := 0; tr < n; tr++ {
 		r := newRng(seed(), uint64(tr))
@@ -99,7 +101,7 @@ func TestPartitionRandom(t *testing.T) {
 			x := r.intn(100)
 			switch {
 			case x < 45:
-				op = partOp{Op: "try", Key: r.pick(keys)}
+				op = partOp{Op: "try", Key: r.pick(reqKeys)}
 			case x < 75:
 				var bins []string
 				for b, ts := range s.tokens {
@@ -108,7 +110,7 @@ func TestPartitionRandom(t *testing.T) {
 					}
 				}
 				if len(bins) == 0 {
-					op = partOp{Op: "try", Key: r.pick(keys)}
+					op = partOp{Op: "try", Key: r.pick(reqKeys)}
 				} else {
 					sortStrings(bins)
 					op = partOp{Op: "rel", Bin: r.pick(bins)}
@@ -122,7 +124,7 @@ func TestPartitionRandom(t *testing.T) {
 			case x < 93:
 				op = partOp{Op: "add", Obj: r.pick(ids)}
 			default:
-				op = partOp{Op: "rem", Key: r.pick(keys)}
+				op = partOp{Op: "rem", Key: r.pick(reqKeys)}
 			}
 			res, err := s.apply(op)
 			if err != nil {
